@@ -5,8 +5,8 @@
 // step of its own).
 //
 // header: {"H":["h1",..],"ctor":"h1"}
-// first step: Setup(mode, rkind)   mode: fn|fnsync|retfut|async|asyncsync|setval|setexc|late|init|shl
-//                                  rkind: val|exc|drop|dtor|final|none
+// first step: Setup(mode, rkind)   mode: fn|fnsync|retfut|async|asyncsync|setval|setexc|factthrow|late|init|shl
+//                                  rkind: val|exc|drop|dtor|unwind|final|none
 //   builds the world: the constructing thread runs its constructor up to the first scheduling point
 // other step labels: Action(thread[,thread])   threads: "r" (resolver), the names in H
 // BeginWait(h, form): the blocking waiter through one of shared_future's own blocking entry points
@@ -19,7 +19,8 @@
 //   fsync    f.force_sync()   (coroutine mode)   nothing handed over, nothing read: observation "synced"
 //   "coroutine mode": the call is made under coro_queue::install_queue_and_call (coro_queue::is_active() is
 //   true, the situation the force_ forms exist for; no coroutine frame is allocated)
-// rounds: ReArmShl(h, kind|"ready") = `f << fn` through a handle of the resolved state; ReArmAssign(h, kind) =
+// rounds: ReArmShl(h, kind|"ready"|"readyexc"|"readynone"|"throws") = `f << fn` through a handle of the resolved state
+//   (fn returns a pending future / a ready one with a value, an exception, no value / throws); ReArmAssign(h, kind) =
 //   `f = shared_future(fn)` by the sole holder (the new state is built in a spare slot, copy-assigned, the
 //   spare handle destroyed; the probe is re-bound to the new state as soon as its constructor is parked at
 //   the charge CAS).  Every round has its own resolver thread and its own value ids ("r","r2","r3" /
@@ -104,6 +105,9 @@ static const char *pname(int id) {
         case 2: return "fn";
         case 3: return "sv";
         case 4: return "coro";
+        case 5: return "ft";
+        case 32: return "ft2";
+        case 33: return "ft3";
         case 12: return "r2";
         case 13: return "r3";
         case 22: return "sv2";
@@ -332,6 +336,9 @@ static void construct(World &w, TS &me) {
         new (s.buf) SF(SF::set_value(3));
     } else if (w.mode == "setexc") {
         new (s.buf) SF(SF::set_exception(std::make_exception_ptr(TestExc(3))));
+    } else if (w.mode == "factthrow") {
+        // the factory throws: future::result_of stores the exception (future.h:301-304)
+        new (s.buf) SF([]() -> Base { throw TestExc(5); });
     } else if (w.mode == "shl") {
         // default constructed, initialised, then `f << function returning a pending future`
         new (s.buf) SF();
@@ -438,6 +445,15 @@ static void handle_body(World &w, TS &me) {
             if (me.arg == "ready") {
                 int id = 20 + w.round;
                 sf << [id]() -> Base { return Base::set_value(id); };
+            } else if (me.arg == "readyexc") {
+                int id = 20 + w.round;
+                sf << [id]() -> Base { return Base::set_exception(std::make_exception_ptr(TestExc(id))); };
+            } else if (me.arg == "readynone") {
+                sf << []() -> Base { return Base::set_not_value(); };
+            } else if (me.arg == "throws") {
+                // the factory throws: result_of's catch path re-creates the future and resolves it with the exception
+                int id = 30 + w.round;
+                sf << [id]() -> Base { throw TestExc(id); };
             } else {
                 sf << [pw]() -> Base {
                     return Base([pw](cocls::promise<Counted> p) { pw->p.emplace(std::move(p)); });
@@ -496,6 +512,14 @@ static void resolver_body(World &w) {
         (void) b;
     } else if (k == "dtor") {
         w.p.reset();
+    } else if (k == "unwind") {
+        // the producer takes the promise into a local (move = claim), fails before resolving it: the local is
+        // destroyed by stack unwinding (std::uncaught_exceptions() == 1 inside ~promise)
+        try {
+            cocls::promise<Counted> local(std::move(*w.p));
+            throw TestExc(id);
+        } catch (const TestExc &) {
+        }
     } else if (k == "final") {
         vsched::mark("final");
         w.gate_h.resume();
@@ -789,7 +813,7 @@ static void run(const Scenario &sc, Reporter &rep) {
                 w.p.reset();
                 w.gate_h = nullptr;
                 w.round++;
-                w.rkind = st.sarg(1) == "ready" ? "none" : st.sarg(1);
+                w.rkind = (st.sarg(1).rfind("ready", 0) == 0 || st.sarg(1) == "throws") ? "none" : st.sarg(1);
                 w.rebind = st.name == "ReArmAssign";
                 for (auto &kv : w.recs) kv.second = Rec();
                 for (auto &kv : w.ts) kv.second->threw = "none";
